@@ -39,32 +39,21 @@ fn check_if_inputs_are_power_of_two(
     box_expression: Box<Expression>,
     box_expression_1: Box<Expression>,
 ) -> bool {
-    //create a boolean to determine if either of the inputs are a power of two
-    let mut is_even: bool = false;
+    //true if either of the inputs is a number literal that is a power of two
+    is_power_of_two_literal(*box_expression) || is_power_of_two_literal(*box_expression_1)
+}
 
-    //if the first expression is a number literal that is a power of 2
-    if let Expression::NumberLiteral(_, val_string, _) = *box_expression {
-        let value = val_string
-            .parse::<u32>()
-            .expect("Could not parse NumberLiteral value from string to u32");
-
-        if (value != 0) && ((value & (value - 1)) == 0) {
-            is_even = true;
+//A literal written without an exponent whose value fits in a u32 and is a power of 2
+fn is_power_of_two_literal(expression: Expression) -> bool {
+    if let Expression::NumberLiteral(_, val_string, exponent) = expression {
+        if exponent.is_empty() {
+            if let Ok(value) = val_string.parse::<u32>() {
+                return (value != 0) && ((value & (value - 1)) == 0);
+            }
         }
     }
 
-    //if the first expression is a number literal that is a power of 2
-    if let Expression::NumberLiteral(_, val_string, _) = *box_expression_1 {
-        let value = val_string
-            .parse::<u32>()
-            .expect("Could not parse NumberLiteral value from string to u32");
-
-        if (value != 0) && ((value & (value - 1)) == 0) {
-            is_even = true;
-        }
-    }
-
-    is_even
+    false
 }
 
 #[test]
